@@ -209,8 +209,12 @@ func init() {
 			c13Pair(c, a, b)
 		}
 		// (3) points: grid incl. the antimeridian, the poles, the clamp latitudes and exact tile edges
-		lons := []float64{-180, -179.999999, -90, -45, -0.0000001, 0, 0.0000001, 45, 90, 135, 179.999999, 180}
-		lats := []float64{-90, -89, -85.06, -85.0511, -85.05, -66.51326044311186, -45, 0, 1e-9, 45, 66.51326044311186, 85.05, 85.0511, 85.06, 89, 90}
+		// (incl. the floating-point neighbours of the limits of the domain: the last longitude below 180, the first above
+		// -180. Neighbours of interior tile edges are left out: one ulp next to an edge the projection cannot tell the
+		// two sides apart, whichever way it is written)
+		lons := []float64{-180, math.Nextafter(-180, 0), -179.999999, -90, -45, -0.0000001, 0, 0.0000001, 45, 90, 135, 179.999999, math.Nextafter(180, 0), 180}
+		lats := []float64{-90, math.Nextafter(-90, 0), -89, -85.06, -85.0511, -85.05, -66.51326044311186, -45, 0, 1e-9, 45, 66.51326044311186,
+			85.05, 85.0511, 85.06, 89, math.Nextafter(90, 0), 90}
 		for _, lon := range lons {
 			for _, lat := range lats {
 				for _, z := range []int{0, 1, 2, 3, 7, 15, 22, 30} {
